@@ -34,7 +34,7 @@ def finalize(agg, tier):
     c = agg["counters"]
     out = []
     for name in ("split_checked", "combine_checked", "dup_refused", "tape_coeff_matched",
-                 "secrecy_checked", "field_mul", "field_inv", "fork_trials"):
+                 "secrecy_checked", "field_mul", "field_inv", "fork_trials", "symmetric_xor_index_pairs"):
         if not c.get(name):
             out.append("deciding counter %s is zero" % name)
     return out
@@ -220,7 +220,7 @@ def small(spec, ctx, SS, gf128, entropy):
 def large(spec, ctx, SS, gf128, entropy):
     rng = ctx.rng
     while not ctx.expired():
-        n = rng.choice([7, 8, 10, 16, 25, 40, 48, 64, 100, 255, 256, 257])
+        n = rng.choice([7, 8, 10, 16, 25, 40, 48, 64, 100, 255, 256, 257, 300, 300, 800, 4400])
         # thresholds up to n for n <= 64 and up to 48 with share indexes up to 257: products of many large
         # indexes must still be reduced in GF(2^128) (the sum of the index bit lengths passes 128)
         k = rng.choice([2, 3, n // 2, n - 1, n]) if n <= 64 else rng.choice([2, 3, 5, 9, 17, 20, 24, 33, 40, 48])
@@ -231,11 +231,22 @@ def large(spec, ctx, SS, gf128, entropy):
         shares, tape = split_with_tape(SS, entropy, k, n, secret, ssss, tape_bytes)
         if k <= 24 or rng.random() < 0.25:
             check_split(ctx, gf128, k, n, secret, ssss, shares, tape, tape_bytes, None)
-        for trial in range(6):
+        # index pairs whose XOR is "symmetric" (0x101, 0x303, 0x505, 0x1111): distinct indexes that a comparison folding
+        # the difference of two elements could take for equal
+        sym = [(i, i ^ x) for x in (0x101, 0x303, 0x505, 0x1111) for i in range(1, n + 1) if 1 <= (i ^ x) <= n]
+        for trial in range(8):
             if trial == 0:
                 sel = shares[-k:]                       # the k largest indexes
             elif trial == 1:
                 sel = shares[:k][::-1]                  # the k smallest, descending
+            elif trial >= 6:
+                if not sym:
+                    continue
+                i_, j_ = rng.choice(sym)
+                rest = rng.sample([s_ for s_ in shares if s_[0] not in (i_, j_)], k - 2)
+                sel = [shares[i_ - 1], shares[j_ - 1]] + rest
+                rng.shuffle(sel)
+                ctx.count("symmetric_xor_index_pairs")
             else:
                 sel = rng.sample(shares, k)
             ctx.case(("large", ssss, k, n, tuple(s[0] for s in sel)))
